@@ -994,10 +994,57 @@ func (g *gen) hist(mode int) *histCase {
 		}
 		c.ups = append(c.ups, u)
 	}
+	var shaped, deep []string
+	if mode == 0 && r.Chance(1, 4) {
+		// label values that look like further query terms, and the same text as separate terms: the
+		// quoted / escaped single term and the unquoted multi-term query must not be confused, in
+		// whichever order they reach the same DB (and the same process)
+		v1, v2 := hx.Pick(r, []string{"fast", "slow", "a", "b"}), hx.Pick(r, []string{"x", "y", "1"})
+		c.ups[0].files = append(c.ups[0].files, fileIn{"shape.txt", fmt.Sprintf(
+			"cpu: %s\nnote: %s\nBenchmarkW 1 1 ns/op\ncpu: %s note:%s\nnote:\nBenchmarkW 1 2 ns/op\nnote: %s cpu:%s\ncpu:\nBenchmarkW 1 3 ns/op\n",
+			v1, v2, v1, v2, v2, v1)})
+		multi, quoted := "cpu:"+v1+" note:"+v2, `"cpu:`+v1+` note:`+v2+`"`
+		esc := "cpu:" + v1 + `\ note:` + v2
+		rmulti, rquoted := "note:"+v2+" cpu:"+v1, `"note:`+v2+` cpu:`+v1+`"`
+		if r.Bool() {
+			shaped = []string{multi, quoted, esc, rmulti, rquoted, multi + " name:W", quoted + " name:W"}
+		} else {
+			shaped = []string{rquoted, quoted, multi, esc, rmulti, quoted + " name:W", multi + " name:W"}
+		}
+		tags["termshaped"] = true
+	}
+	if mode == 0 && r.Chance(1, 5) {
+		// names with nine to thirteen components: subN is the N-th component
+		parts := func(n int, ninth string) string {
+			var b strings.Builder
+			for i := 1; i <= n; i++ {
+				switch {
+				case i == 9:
+					b.WriteString("/" + ninth)
+				case i == 4 && n%2 == 0:
+					b.WriteString("/kv=w") // a key=value part still counts as a position
+				default:
+					fmt.Fprintf(&b, "/l%d", i)
+				}
+			}
+			return b.String()
+		}
+		n := 9 + r.Intn(5)
+		var b strings.Builder
+		fmt.Fprintf(&b, "BenchmarkWalk%s 1 1 ns/op\n", parts(n, "l9"))
+		fmt.Fprintf(&b, "BenchmarkWalk%s 1 2 ns/op\n", parts(n, "m9"))
+		fmt.Fprintf(&b, "BenchmarkWalk%s-8 1 3 ns/op\n", parts(13, "l9"))
+		fmt.Fprintf(&b, "BenchmarkWalk%s 1 4 ns/op\n", parts(10, "l9"))
+		c.ups[len(c.ups)-1].files = append(c.ups[len(c.ups)-1].files, fileIn{"deep.txt", b.String()})
+		deep = []string{"sub9:l9", "sub9:m9", "sub10:l10", "sub9:l10", "sub11:l11 name:Walk", "sub13:l13", "sub12>l1 sub10<l2", "sub8:l8 sub9>l"}
+		tags["deepname"] = true
+	}
 	nq := 4 + r.Intn(5)
 	for i := 0; i < nq; i++ {
 		c.qs = append(c.qs, g.query(c, ids, tags))
 	}
+	c.qs = append(c.qs, shaped...)
+	c.qs = append(c.qs, deep...)
 	if mode == 2 {
 		c.qs = append(c.qs, "name:Foo", "k>v1 k<v4")
 	}
@@ -1006,6 +1053,12 @@ func (g *gen) hist(mode int) *histCase {
 		c.ls = append(c.ls, listReq{hx.Pick(r, c.qs), hx.Pick(r, []int{0, 0, 1, 2, 3, -1})})
 	}
 	c.ls = append(c.ls, listReq{"name>", 0}, listReq{"k:a k:b", 0})
+	if len(shaped) > 0 {
+		c.ls = append(c.ls, listReq{shaped[0], 0}, listReq{shaped[1], 0}, listReq{shaped[2], 0})
+	}
+	if len(deep) > 0 {
+		c.ls = append(c.ls, listReq{"name:Walk", 0}, listReq{"sub9:l9", 0}, listReq{"sub10:l10", 0})
+	}
 	if mode == 1 {
 		// limits that cut inside, at and beyond the set of matching uploads
 		seen := map[int]bool{}
